@@ -353,7 +353,12 @@ func suiteGenerate(env *Env, res *Result, focus string) {
 				if confirmed {
 					res.count("equivalence:differs-confirmed")
 					input["witness"] = w
-					res.addFailure(Failure{Kind: "C01", Shape: c01Shape(g, w), Input: input, Detail: detail})
+					shape := c01Shape(g, w)
+					res.addFailure(Failure{Kind: "C01", Shape: shape, Input: input, Detail: detail})
+					// the same difference seen from the property the generator is focused on
+					if fp := map[string]string{"cmdline": "C04", "include": "C05", "defs": "C07"}[focus]; fp != "" && shape == "c01_other" {
+						res.addFailure(Failure{Kind: fp, Shape: strings.ToLower(fp) + "_language_differs_from_plain_reading", Input: input, Detail: detail})
+					}
 				} else {
 					res.count("equivalence:differs-unconfirmed")
 					res.MismatchCount++
@@ -422,6 +427,9 @@ func checkOutputShape(out string, flags string) []string {
 				break
 			}
 		}
+	}
+	if strings.Contains(out, `\t\n\f\r `) {
+		bad = append(bad, "c02_space_class_without_vt")
 	}
 	body := out
 	want := ""
